@@ -26,6 +26,7 @@ Proof.
   - eapply Hupd; eauto.
   - eauto.
   - eauto.
+  - eauto.
   - eapply Hupd; eauto. intros r Hr. congruence.
   - eapply Hupd; eauto. intros r Hr. congruence.
 Qed.
@@ -72,6 +73,7 @@ Proof.
     + intros E W R. inversion E; subst. discriminate.
     + intros E W R. pose proof (HE _ _ E W R) as T. rewrite tget_tdel.
       destruct (N.eqb_spec (p_id pg0) j); [|exact T]. congruence.
+  - apply HE.
   - apply HE.
   - apply HE.
   - (* Timeout *)
@@ -154,6 +156,7 @@ Proof.
     rewrite orb_true_r. destruct b; [exact Hr|]. exfalso.
     pose proof (HE _ _ Hp Hw Hr) as T. subst j. rewrite Hid in T. congruence.
   - eauto 6.
+  - eauto 6.
   - destruct (Nat.eqb_spec pp p).
     + subst p. rewrite Ep in Hp. inversion Hp; subst pgp. eexists. split; [reflexivity|]. cbn. auto.
     + eauto 6.
@@ -230,16 +233,16 @@ Qed.
 (* ------------------------------------------------------------------ *)
 (* C19_iff *)
 
-Theorem ping_iff fx n pre p mid post s :
+Theorem ping_iff fx n pre p tmo mid post s :
   n < 65536 ->
-  run fx (init n) (pre ++ Begin p :: mid ++ End p :: post) = Ok s ->
+  run fx (init n) (pre ++ Begin p tmo :: mid ++ End p :: post) = Ok s ->
   exists i, id_of s p = Some i /\
     (result_of s p = Some RNil <-> In (Notify i) mid) /\
     (result_of s p = Some RTimeout <-> ~ In (Notify i) mid).
 Proof.
   intros Hn Hrun.
   destruct (run_app_inv _ _ _ _ _ Hrun) as (s0 & R0 & Hrun1).
-  cbn [run] in Hrun1. destruct (step fx s0 (Begin p)) as [s1| | |] eqn:E1; try discriminate.
+  cbn [run] in Hrun1. destruct (step fx s0 (Begin p tmo)) as [s1| | |] eqn:E1; try discriminate.
   destruct (run_app_inv _ _ _ _ _ Hrun1) as (s2 & R2 & Hrun2).
   cbn [run] in Hrun2. destruct (step fx s2 (End p)) as [s3| | |] eqn:E3; try discriminate.
   assert (Hfirst : ~ In (End p) mid /\ ~ In (Sent p false) mid).
@@ -253,11 +256,11 @@ Proof.
   { cbn [step] in E1. destruct (pget (pings s0) p) eqn:Ep; [discriminate|].
     destruct (table_full (tbl s0)).
     - exfalso. inversion E1; subst s1.
-      assert (Hp1 : pget (pings (set_pings s0 (pset (pings s0) p
-                 (mkPing (next s0) false false false (Returned RBusy) (cnt s0))))) p =
-               Some (mkPing (next s0) false false false (Returned RBusy) (cnt s0)))
-        by (cbn [pings set_pings]; rewrite pget_pset, Nat.eqb_refl; reflexivity).
-      destruct (returned_stable _ _ _ _ _ _ _ Hp1 eq_refl R2) as (pg2 & Hp2 & Hph2 & _).
+      match type of R2 with run _ ?st _ = _ =>
+        assert (Hp1 : exists pgb, pget (pings st) p = Some pgb /\ p_phase pgb = Returned RBusy)
+          by (cbn [pings set_pings]; rewrite pget_pset, Nat.eqb_refl; eexists; split; reflexivity) end.
+      destruct Hp1 as (pgb & Hp1 & Hphb).
+      destruct (returned_stable _ _ _ _ _ _ _ Hp1 Hphb R2) as (pg2 & Hp2 & Hph2 & _).
       eapply returned_no_end; eauto.
     - destruct (alloc (tbl s0) (next s0)) as [ia|]; [|discriminate]. cbv zeta in E1.
       inversion E1; subst s1. exists ia. unfold tracks. cbn [pings]. rewrite pget_pset, Nat.eqb_refl.
@@ -270,7 +273,7 @@ Proof.
   destruct (p_closed pg || p_fired pg); [|discriminate]. inversion E3; subst s3; clear E3.
   match type of Hrun2 with run _ ?st _ = _ =>
     assert (Hp3 : pget (pings st) p = Some (mkPing (p_id pg) (p_recv pg) (p_closed pg) (p_fired pg)
-                   (Returned (if p_recv pg then RNil else RTimeout)) (p_seq pg)))
+                   (Returned (if p_recv pg then RNil else RTimeout)) (p_seq pg) (p_time pg)))
       by (cbn [pings]; rewrite pget_pset, Nat.eqb_refl; reflexivity) end.
   destruct (returned_stable _ _ _ _ _ _ _ Hp3 eq_refl Hrun2) as (pgf & Hpf & Hrf & Hif).
   cbn [p_id] in Hif. exists i. unfold id_of, result_of. rewrite Hpf, Hrf. cbn [option_map].
@@ -279,20 +282,20 @@ Proof.
 Qed.
 
 (* a call whose send fails returns that error, whatever was parsed meanwhile *)
-Theorem ping_send_error fx n pre p mid post s :
-  run fx (init n) (pre ++ Begin p :: mid ++ Sent p false :: post) = Ok s ->
+Theorem ping_send_error fx n pre p tmo mid post s :
+  run fx (init n) (pre ++ Begin p tmo :: mid ++ Sent p false :: post) = Ok s ->
   result_of s p = Some RSendErr.
 Proof.
   intros Hrun.
   destruct (run_app_inv _ _ _ _ _ Hrun) as (s0 & _ & Hrun1).
-  cbn [run] in Hrun1. destruct (step fx s0 (Begin p)) as [s1| | |]; try discriminate.
+  cbn [run] in Hrun1. destruct (step fx s0 (Begin p tmo)) as [s1| | |]; try discriminate.
   destruct (run_app_inv _ _ _ _ _ Hrun1) as (s2 & _ & Hrun2).
   cbn [run] in Hrun2. destruct (step fx s2 (Sent p false)) as [s3| | |] eqn:E3; try discriminate.
   cbn [step] in E3. destruct (pget (pings s2) p) as [pg|] eqn:Hp; [|discriminate].
   destruct (p_phase pg); try discriminate. inversion E3; subst s3; clear E3.
   match type of Hrun2 with run _ ?st _ = _ =>
     assert (Hp3 : pget (pings st) p = Some (mkPing (p_id pg) (p_recv pg) (p_closed pg) (p_fired pg)
-                   (Returned RSendErr) (p_seq pg)))
+                   (Returned RSendErr) (p_seq pg) (p_time pg)))
       by (cbn [pings]; rewrite pget_pset, Nat.eqb_refl; reflexivity) end.
   destruct (returned_stable _ _ _ _ _ _ _ Hp3 eq_refl Hrun2) as (pgf & Hpf & Hrf & _).
   unfold result_of. rewrite Hpf, Hrf. reflexivity.
